@@ -147,6 +147,7 @@ def check_pair_arguments(prog, ctx, rule):
     the index of the second (`domains[j]` next to `domains[i]`, `list(zip(lower[j], upper[j]))` next to `list(zip(lower[i], upper[i]))`)."""
     bd = prog.func(DE + ".build_R_matrix_dimension_wise")
     tm = Terms(bd.node, max_depth=0)
+    c = cfg_of(bd)
     n = 0
     bad = []
 
@@ -156,14 +157,25 @@ def check_pair_arguments(prog, ctx, rule):
         if isinstance(t, tuple):
             return tuple(subst(x, a, b) for x in t)
         return t
+
+    def uncopy(t):
+        """list(list(X)) / tuple(list(X)) -> list(X): a shallow copy of a freshly built list is that list for this rule"""
+        while isinstance(t, tuple) and len(t) == 3 and t[0] == "copy" and isinstance(t[2], tuple) and len(t[2]) == 3 and t[2][0] == "copy":
+            t = t[2]
+        return t
     for call in [x for x in ast.walk(bd.node) if isinstance(x, ast.Call)]:          # local helper functions of the builder included
         f_ = call.func
         if not (isinstance(f_, ast.Attribute) and f_.attr in ("calculate_L2_scalarproduct", "calculate_R_value_analytically", "get_domain_overlap_width")
                 and len(call.args) == 4):
             continue
-        a0, a1, a2, a3 = [tm.term(x) for x in call.args]
+        cn = c.node_containing(call)
+        if cn is not None and cn.ast is not None:
+            a0, a1, a2, a3 = [R.resolve_locals(bd, tm.term(x), cn, tm) for x in call.args]
+        else:                                   # a call inside a nested helper: raw terms
+            a0, a1, a2, a3 = [tm.term(x) for x in call.args]
         if not (a0[0] == "s" and a2[0] == "s" and a0[1] == a2[1]):
             continue
+        a1, a3 = uncopy(a1), uncopy(a3)
         n += 1
         ia, ib = a0[2], a2[2]
         if subst(a1, ia, ib) != a3 or (ia != ib and a1 == a3):
